@@ -26,6 +26,7 @@ FS = ["id", "inc", "dbl"]
 
 class Gen:
     mixed_api = 0.0   # probability that a request / stream of a command script uses the capability API
+    p_try = float(os.environ.get("GEN_PTRY", "0.08"))   # probability of a non-blocking read when a stream / channel is at hand
     p_chan = float(os.environ.get("GEN_PCH", "0.10"))   # probability that a script step is a task-to-task channel step
     p_then_stream = float(os.environ.get("GEN_PTS", "0.12"))   # probability that a chain has a then_stream stage
 
@@ -188,6 +189,19 @@ class Gen:
                 code.append({"op": "abortc", "id": r.choice(self.cmd_ids[-4:])})
                 continue
             if self.family == "legacy" and k in ("abort", "joinh"):
+                continue
+            if streams and r.random() < self.p_try:
+                # a non-blocking look at a stream (now_or_never)
+                dst = r.randint(1, 4)
+                code.append({"op": "trynext", "s": r.choice(streams), "dst": dst})
+                if r.random() < 0.6:
+                    code.append({"op": "emit", "tag": self.tag(), "src": {"r": dst}})
+                continue
+            rx_now = [c for c, role in chans.items() if role == "rx"]
+            if rx_now and r.random() < self.p_try:
+                dst = r.randint(1, 4)
+                code.append({"op": "tryrecv", "c": r.choice(rx_now), "dst": dst})
+                code.append({"op": "emit", "tag": self.tag(), "src": {"r": dst}})
                 continue
             if k == "emit":
                 code.append({"op": "emit", "tag": self.tag(), "src": self.src()})
